@@ -94,7 +94,13 @@ fn kind(p: &Profile, d: &mut Dec) -> Kind {
             interest: d.pickw(&[1, 5, 1, 2]) as u8,
             mode: d.pickw(&[4, 2, 2]) as u8,
         },
-        4 => Kind::Exec,
+        4 => {
+            if d.pickw(&[2, 1]) == 0 {
+                Kind::Exec
+            } else {
+                Kind::Stream
+            }
+        }
         5 => {
             let subs = d.u8r(1, 4);
             let lifecycle = d.pct(p.probe_lifecycle_pct.min(100));
@@ -265,7 +271,7 @@ pub fn op(p: &Profile, depth: u32, in_cb: bool, d: &mut Dec) -> Op {
             _ => Op::AsyncGive { a: d.u16(), tok: d.u16() },
         },
         8 => Op::InsertBad { which: d.u8r(0, 2) },
-        9 => match d.pickw(&[5, 4, 1]) {
+        9 => match d.pickw(&[5, 4, 1, 4, 1]) {
             0 => {
                 let src = d.u16();
                 let pendings = d.u8r(0, 2);
@@ -280,7 +286,9 @@ pub fn op(p: &Profile, depth: u32, in_cb: bool, d: &mut Dec) -> Op {
                 Op::Schedule { src, plan: FutPlan { pendings, self_wake, val, ops } }
             }
             1 => Op::Wake { task: d.u16() },
-            _ => Op::DropScheduler { src: d.u16() },
+            2 => Op::DropScheduler { src: d.u16() },
+            3 => Op::StreamPush { src: d.u16(), val: d.u8() },
+            _ => Op::StreamEnd { src: d.u16() },
         },
         10 => {
             if d.pickw(&[3, 1]) == 0 {
